@@ -28,12 +28,29 @@ def main():
     ap.add_argument("--tier", default="quick")
     ap.add_argument("--seed", default="1")
     ap.add_argument("--keep", action="store_true")
+    ap.add_argument("--reuse", metavar="DIR", help="keep ONE scratch worktree (DIR/wt, reset to /repo's HEAD before and "
+                    "after the patch) and ONE build directory (DIR/build) across calls: only the translation units a "
+                    "patch touches are recompiled.  Remove with: git -C /repo worktree remove --force DIR/wt; rm -rf DIR")
     a = ap.parse_args()
-    wt = "/tmp/mutwt.%d" % os.getpid()
-    bd = "/tmp/mutbuild.%d" % os.getpid()
-    r = sh("git -C /repo worktree add --detach %s HEAD" % wt)
-    if r.returncode != 0:
-        raise SystemExit(r.stdout)
+    if a.reuse:
+        a.keep = True
+        base = os.path.abspath(a.reuse)
+        wt, bd = os.path.join(base, "wt"), os.path.join(base, "build")
+        if not os.path.isdir(wt):
+            os.makedirs(base, exist_ok=True)
+            r = sh("git -C /repo worktree add --detach %s HEAD" % wt)
+            if r.returncode != 0:
+                raise SystemExit(r.stdout)
+        head = sh("git -C /repo rev-parse HEAD").stdout.strip()
+        r = sh("git -C %s checkout -q -- . && git -C %s clean -fdq && git -C %s checkout -q --detach %s" % (wt, wt, wt, head))
+        if r.returncode != 0:
+            raise SystemExit(r.stdout)
+    else:
+        wt = "/tmp/mutwt.%d" % os.getpid()
+        bd = "/tmp/mutbuild.%d" % os.getpid()
+        r = sh("git -C /repo worktree add --detach %s HEAD" % wt)
+        if r.returncode != 0:
+            raise SystemExit(r.stdout)
     results = {}
     try:
         r = sh("git -C %s apply %s" % (wt, os.path.abspath(a.patch)))
@@ -59,6 +76,8 @@ def main():
     finally:
         # restore translator outputs and evidence that the mutant run rewrote
         sh("git -C %s checkout -- lean/EngineModel/Gen evidence" % VERIF)
+        if a.reuse:
+            sh("git -C %s checkout -q -- . && git -C %s clean -fdq" % (wt, wt))
         if not a.keep:
             sh("git -C /repo worktree remove --force %s" % wt)
             shutil.rmtree(bd, ignore_errors=True)
